@@ -7,7 +7,9 @@ package main
 
 import (
 	"context"
+	"errors"
 	"fmt"
+	"io"
 	"math/rand"
 	"net"
 	"net/http"
@@ -16,6 +18,7 @@ import (
 	"sort"
 	"strconv"
 	"strings"
+	"sync"
 
 	"bngverif/flx"
 	"bngverif/hx"
@@ -47,16 +50,69 @@ func randOp(r *rand.Rand, n, subs int) string {
 		return fmt.Sprintf("release %d s%d", i, s)
 	case x < 68:
 		return fmt.Sprintf("get %d s%d", i, s)
-	case x < 90:
+	case x < 87:
 		j := 1 + r.Intn(n)
 		return fmt.Sprintf("health %d %d %d", i, j, r.Intn(2))
+	case x < 91:
+		// the answer of forwarded requests gets lost after the peer handled them
+		return fmt.Sprintf("fault %s %s", hx.Pick(r, []string{"resp", "status", "body"}), hx.Pick(r, []string{"once", "once", "on", "off", "off"}))
 	default:
 		return fmt.Sprintf("stats %d", i)
 	}
 }
 
+// lostAnswers: forwarded requests whose answer is lost (review r-gaps C7), on small pools so that the addresses a peer
+// holds for subscribers who were never told make it run dry; no health changes (routing stays at the rank-first owner);
+// repeated requests and releases in between, Stats / Get / audit of every node after each round.
+func lostAnswers(r *rand.Rand, tier string, emit func([]string)) {
+	cnt := 250
+	if tier == "thorough" {
+		cnt = 5000
+	}
+	for c := 0; c < cnt; c++ {
+		g := geos[r.Intn(3)] // 5, 2 or 13 addresses
+		n := 2 + r.Intn(2)
+		subs := 3 + r.Intn(8)
+		seq := []string{fmt.Sprintf("new %x %d %x %d", g.Net, g.Ones, g.Gw, n)}
+		for round, rounds := 0, 1+r.Intn(4); round < rounds; round++ {
+			seq = append(seq, fmt.Sprintf("fault %s %s", hx.Pick(r, []string{"resp", "status", "body"}), hx.Pick(r, []string{"once", "on"})))
+			for j, m := 0, 1+r.Intn(5); j < m; j++ {
+				i, s := 1+r.Intn(n), 1+r.Intn(subs)
+				switch x := r.Intn(10); {
+				case x < 6:
+					seq = append(seq, fmt.Sprintf("alloc %d s%d", i, s))
+				case x < 8:
+					seq = append(seq, fmt.Sprintf("release %d s%d", i, s))
+				case x < 9:
+					seq = append(seq, fmt.Sprintf("burst %d s%d %d", i, s, 2+r.Intn(3)))
+				default:
+					seq = append(seq, fmt.Sprintf("get %d s%d", i, s))
+				}
+			}
+			seq = append(seq, "fault resp off")
+			for j, m := 0, r.Intn(6); j < m; j++ {
+				i, s := 1+r.Intn(n), 1+r.Intn(subs)
+				switch x := r.Intn(10); {
+				case x < 5:
+					seq = append(seq, fmt.Sprintf("alloc %d s%d", i, s)) // a repeated request heals, a new subscriber may find the pool dry
+				case x < 6:
+					seq = append(seq, fmt.Sprintf("release %d s%d", i, s))
+				case x < 8:
+					seq = append(seq, fmt.Sprintf("get %d s%d", i, s))
+				default:
+					seq = append(seq, fmt.Sprintf("stats %d", i))
+				}
+			}
+			for i := 1; i <= n; i++ {
+				seq = append(seq, fmt.Sprintf("stats %d", i), fmt.Sprintf("audit %d", i))
+			}
+		}
+		emit(append(seq, tail(n, subs)...))
+	}
+}
+
 func tail(n, subs int) []string {
-	var out []string
+	out := []string{"fault resp off"}
 	for i := 1; i <= n; i++ {
 		for j := 1; j <= n; j++ {
 			out = append(out, fmt.Sprintf("health %d %d 1", i, j))
@@ -140,6 +196,14 @@ type run struct {
 	muxes map[string]*http.ServeMux
 	n     int
 	total int // addresses every node's local pool was built with
+
+	// fault injection on the RESPONSE of a forwarded request (review r-gaps C7): the peer's handler has run (the address is
+	// allocated / released there) and then the requester's http.Client.Do fails ("resp"), sees a 502 from something in
+	// between ("status"), or reads a truncated JSON body ("body": allocation responses only - a release has no body to decode)
+	fmu       sync.Mutex
+	faultKind string // "" | resp | status | body
+	faultOnce bool
+	fired     bool // the fault hit a request of the current op
 }
 
 func (comp) NewRun() hx.Run {
@@ -159,7 +223,41 @@ func (r *run) RoundTrip(req *http.Request) (*http.Response, error) {
 	}
 	rec := httptest.NewRecorder()
 	mux.ServeHTTP(rec, req)
+	r.fmu.Lock()
+	kind := r.faultKind
+	if kind == "body" && !strings.HasPrefix(req.URL.Path, "/pool/allocate") {
+		kind = ""
+	}
+	if kind != "" {
+		r.fired = true
+		if r.faultOnce {
+			r.faultKind = ""
+		}
+	}
+	r.fmu.Unlock()
+	switch kind {
+	case "resp":
+		return nil, errors.New("connection reset before the response arrived")
+	case "status":
+		res := rec.Result()
+		res.StatusCode, res.Status = http.StatusBadGateway, "502 Bad Gateway"
+		return res, nil
+	case "body":
+		res := rec.Result()
+		b, _ := io.ReadAll(res.Body)
+		res.Body = io.NopCloser(strings.NewReader(string(b[:len(b)/2])))
+		return res, nil
+	}
 	return rec.Result(), nil
+}
+
+// took reports (and forgets) whether the response fault hit a request since the last call
+func (r *run) took() bool {
+	r.fmu.Lock()
+	defer r.fmu.Unlock()
+	f := r.fired
+	r.fired = false
+	return f
 }
 
 func (r *run) ranked(p *pool.PeerPool, sub string) string {
@@ -207,6 +305,20 @@ func (r *run) Do(op string) string {
 	if len(f) < 2 {
 		return "badop"
 	}
+	if f[0] == "fault" {
+		// fault resp|status|body on|off|once
+		if len(f) != 3 || len(r.pools) == 0 || (f[1] != "resp" && f[1] != "status" && f[1] != "body") ||
+			(f[2] != "on" && f[2] != "off" && f[2] != "once") {
+			return "badop"
+		}
+		r.fmu.Lock()
+		r.faultKind, r.faultOnce = f[1], f[2] == "once"
+		if f[2] == "off" {
+			r.faultKind = ""
+		}
+		r.fmu.Unlock()
+		return "ok"
+	}
 	i, err := strconv.Atoi(f[1])
 	p := r.pools[i]
 	if err != nil || p == nil {
@@ -227,6 +339,12 @@ func (r *run) Do(op string) string {
 		served := nodeNum(p.HealthyOwnerForVerif(sub))
 		rk := r.ranked(p, sub)
 		resp, err := p.Allocate(ctx, sub, nil)
+		if lost := r.took(); lost && err != nil {
+			// the peer handled the request; the requester was left with an error
+			return fmt.Sprintf("lost served=%s ranked=%s", served, rk)
+		} else if lost {
+			return "error the response fault hit the request and Allocate still succeeded"
+		}
 		if err != nil {
 			if strings.Contains(err.Error(), "exhausted") || strings.Contains(err.Error(), "status 503") {
 				return fmt.Sprintf("exhausted served=%s ranked=%s", served, rk)
@@ -250,7 +368,15 @@ func (r *run) Do(op string) string {
 				target = q
 			}
 		}
+		// (the response fault is suspended for the burst: which of the k calls it would hit is up to the scheduler)
+		r.fmu.Lock()
+		savedKind := r.faultKind
+		r.faultKind = ""
+		r.fmu.Unlock()
 		answers := flx.Burst(k, target.HoldLocalPoolForVerif, func() string { return r.Do(fmt.Sprintf("alloc %d %s", i, sub)) })
+		r.fmu.Lock()
+		r.faultKind = savedKind
+		r.fmu.Unlock()
 		// all answers carry the same served=/ranked= tail; they may differ in the address
 		set := map[string]bool{}
 		tailOf := ""
@@ -280,7 +406,13 @@ func (r *run) Do(op string) string {
 	case f[0] == "release" && len(f) == 3 && subOK:
 		served := nodeNum(p.HealthyOwnerForVerif(sub))
 		rk := r.ranked(p, sub)
-		if err := p.Release(ctx, sub); err != nil {
+		err := p.Release(ctx, sub)
+		if lost := r.took(); lost && err != nil {
+			return fmt.Sprintf("lost served=%s ranked=%s", served, rk)
+		} else if lost {
+			return "error the response fault hit the request and Release still succeeded"
+		}
+		if err != nil {
 			return "error " + err.Error()
 		}
 		return fmt.Sprintf("ok served=%s ranked=%s", served, rk)
